@@ -44,6 +44,22 @@ class FaultSim(mosaik_api_v3.Simulator):
                 raise exc(f"injected fault in {name} of {self.sid}")
             if self.fault["kind"] == "exit":
                 os._exit(3)
+            if self.fault["kind"] in ("reset", "close"):
+                # the simulator closes its connection without exiting: abortively (RST, SO_LINGER 0) or orderly (FIN);
+                # the process lives on for a while
+                import socket, struct, time as _t
+                for fd in os.listdir("/proc/self/fd"):
+                    try:
+                        if os.readlink(f"/proc/self/fd/{fd}").startswith("socket:"):
+                            sk = socket.socket(fileno=os.dup(int(fd)))
+                            if self.fault["kind"] == "reset":
+                                sk.setsockopt(socket.SOL_SOCKET, socket.SO_LINGER, struct.pack("ii", 1, 0))
+                            sk.close()
+                            os.close(int(fd))
+                    except OSError:
+                        pass
+                _t.sleep(0.5)
+                os._exit(4)
             if self.fault["kind"] == "sysexit":
                 sys.exit(3)
             if self.fault["kind"] == "kbint":
